@@ -4,6 +4,7 @@ import os
 import random
 import sys
 import time
+import re
 import traceback
 
 from . import common
@@ -139,6 +140,11 @@ class Prop:
                 # raised by the harness's own code (a hook point that is gone, a callback that met something it does not
                 # understand): the implementation was NOT observed — never an oracle verdict, always a broken correspondence
                 return {"harness_error": f"{type(e).__name__}: {str(e)[:200]}", "where": tb[-3:-1]}
+            if isinstance(e, (TypeError, AttributeError)) and re.search(r"\b(Ex|Poly)\b", str(e)):
+                # the real code refuses the harness's own exact number type (e.g. it now calls math.exp or float() on a
+                # probability): that is no statement about the property - the case was not observed in exact arithmetic
+                return {"harness_error": f"the code under test does not accept the harness's exact number type here: "
+                                         f"{type(e).__name__}: {str(e)[:160]}", "where": tb[-3:-1]}
             return {"exc": type(e).__name__, "msg": str(e)[:300], "where": tb[-3:-1]}   # the real code raised: an observation
 
 
